@@ -263,6 +263,7 @@ OPEN = ["float rounding of evo's evaluation: values agree with the exact definit
 
 def check(ctx):
     lean = core.lean_side(ctx.prop, ctx.tier)
+    cli.check_tables(ctx, "ape")
     cases = list(gen_cases(ctx))
     evaluate(ctx, cases)
     core.shrink_all(ctx, shrink, evaluate)
